@@ -179,6 +179,14 @@ HAND = [
     "CC(=O)OCC=CO>>OCC=CO",
     "CC(=O)Nc1ccc(C(O)O)cc1>>Nc1ccc(C(O)O)cc1",
     "COC(=O)CC(O)OCC>>OC(=O)CC(O)OCC",
+    # two oxidant / reductant equivalents in one reaction
+    "OCCCO>>O=CCC=O",
+    "OCc1ccc(CO)cc1>>O=Cc1ccc(C=O)cc1",
+    "CC(=O)CC(C)=O>>CC(O)CC(C)O",
+    "OCCCCO>>O=CCCC=O",
+    "CC(O)CC(C)O>>CC(=O)CC(C)=O",
+    "O=CCCC=O>>OCCCCO",
+    "OCCO>>O=CC=O",
     # repeated molecules
     "CC(=O)O.CC(=O)O>>CC(=O)OC(C)=O",
     "CCO.CCO.CCO>>CCOCC",
